@@ -5,7 +5,7 @@ alive at once (the interleaving of operations on different models is the schedul
 joins / leaves injected. Behind a per-run switch (on in ~15% of runs) components are attached /
 detached WHILE the agent is resident, with or without the manual register / deregister call; the
 divergences this produces on the current tree are the listed known findings F1, F2, F3, F6."""
-from ECAgent.Core import Agent, AgentNotFoundError, Component, DuplicateAgentError, Model, System
+from ECAgent.Core import Agent, AgentNotFoundError, Component, DuplicateAgentError, Environment, Model, System
 from ECAgent.Environments import PositionComponent
 
 from .worlds import RefWorld, gen_world, make_world
@@ -19,14 +19,14 @@ RULE = ("1-3 models, each with a plain Environment or a SpaceWorld / DiscreteWor
         "models; in ~15% of runs also attach / detach while resident with or without manual (de)registration; "
         "non-trivial = >=2 component types in use, >=1 agent left while another agent with one of its types stayed, and "
         ">=1 re-join; distinct = sequence of (model, op, per-type listing sizes)"
-        "; also: models stepped / completed in mid-history, worlds that are not model.environment, a container-like component that is falsy while empty, joins / leaves / re-joins issued by a System from inside a running timestep")
+        "; also: models stepped / completed in mid-history, worlds that are not model.environment, a container-like component that is falsy while empty, joins / leaves / re-joins issued by a System from inside a running timestep, agents that are environments themselves")
 COMPONENTS = {"real": ["ECAgent.Core.Environment.add_agent / remove_agent", "SystemManager.register_component / "
                        "deregister_component / get_components / __getitem__", "Agent.add_component / remove_component",
                        "SpaceWorld / DiscreteWorld / LineWorld / GridWorld add_agent / remove_agent"],
               "stub": ["component classes and agents are harness-defined"]}
 PROBES = ["pool_deleted_and_recreated", "leave_from_middle", "two_models_same_type", "spatial_join_leave", "rejoin",
           "attach_after_leaving", "subclass_component", "resident_touch_run", "manual_register", "reject_join", "reject_leave",
-          "model_completed_then_join_leave", "falsy_component_emptied", "ops_from_inside_a_timestep"]
+          "model_completed_then_join_leave", "falsy_component_emptied", "ops_from_inside_a_timestep", "agent_is_an_environment"]
 TECHNIQUE = "deterministic simulation: seeded join/leave/attach/detach histories interleaved over several live models vs a per-model mirror reference; known-finding classifier for resident attach/detach"
 LEVEL_TEXT = ("Seeded search over join/leave/attach/detach histories on 1-3 live models; after every operation, for every "
               "component type and every model, the exposed listing must be element-wise identical (objects, joining order) to "
@@ -138,24 +138,36 @@ def generate(rng, tier):
             else:
                 sub.append({"op": rng.choice(["join_dup", "leave_ghost"]), "k": k})
         ops.insert(rng.randint(0, len(ops)), {"m": mi, "op": "instep", "sub": sub})
-    return {"worlds": worlds, "agents": nag, "touch": touch, "ops": ops}
+    envagents = []
+    if rng.random() < 0.2:       # some agents are environments themselves (their components are listed like anybody's)
+        for mi in range(nm):
+            for k in range(nag[mi]):
+                if rng.random() < 0.3:
+                    envagents.append([mi, k, rng.choice([0, 0, 1])])
+    return {"worlds": worlds, "agents": nag, "touch": touch, "ops": ops, "envagents": envagents}
 
 
 class M:
-    def __init__(self, spec, n, idx):
+    def __init__(self, spec, n, idx, envagents=()):
         self.model = Model(seed=20260927)
         self.ref = RefWorld(spec)
         self.env = make_world(self.model, spec)
-        self.agents = [Agent(f"m{idx}a{k}", self.model) for k in range(n)]
+        nested = {k % n: inner for mi, k, inner in envagents if mi == idx}
+        self.agents = [Environment(self.model, id=f"m{idx}a{k}") if k in nested else Agent(f"m{idx}a{k}", self.model) for k in range(n)]
+        for k, inner in nested.items():
+            for j in range(inner):           # component-less inhabitants of the nested environment
+                self.agents[k].add_agent(Agent(f"m{idx}a{k}.in{j}", self.model))
         self.residents = []        # agent indices in joining order
         self.left_once = set()
         self.runner = None
 
 
 def execute(sc, ctx):
-    models = [M(w, max(1, n), i) for i, (w, n) in enumerate(zip(sc["worlds"], sc["agents"]))]
+    models = [M(w, max(1, n), i, sc.get("envagents", ())) for i, (w, n) in enumerate(zip(sc["worlds"], sc["agents"]))]
     if not models:
         return
+    if sc.get("envagents"):
+        ctx.probe("agent_is_an_environment")
     touch = bool(sc.get("touch"))
     if touch:
         ctx.probe("resident_touch_run")
